@@ -46,14 +46,20 @@ type c08call struct {
 }
 
 type c08plan struct {
-	name       string
-	opsMs      int // driver-level TimeoutOps (0: 2000 ms)
-	v11        bool
-	echo       int
-	trailingLF bool
-	seg        []int
-	calls      []c08call
-	malformed  bool
+	name  string
+	opsMs int // driver-level TimeoutOps (0: 2000 ms)
+	// version matrix: what the server advertises and what the client prefers. matrix=false means
+	// the plain cell (server advertises 1.0 plus 1.1 iff v11, no preference). v11 is always the
+	// version that has to be selected.
+	matrix         bool
+	caps10, caps11 bool
+	preferred      string
+	v11            bool
+	echo           int
+	trailingLF     bool
+	seg            []int
+	calls          []c08call
+	malformed      bool
 }
 
 func c08Payload(r *vlib.Rng, v11 bool, bait int) []byte {
@@ -283,6 +289,55 @@ func c08AddHistory(p *c08plan, h *vlib.Rng) {
 	}
 }
 
+// c08AddMatrix picks a legal cell of server capabilities x preferred version whose outcome is the
+// plan's version, and sometimes turns a merged echo into a coalesced (pty style) one. Own random
+// stream: the base plan of a seed stays what it always was.
+func c08AddMatrix(p *c08plan, h *vlib.Rng) {
+	p.matrix = true
+	if p.v11 {
+		switch h.Intn(4) {
+		case 0:
+			p.caps10, p.caps11, p.preferred = false, true, ""
+		case 1:
+			p.caps10, p.caps11, p.preferred = false, true, "1.1"
+		case 2:
+			p.caps10, p.caps11, p.preferred = true, true, ""
+		default:
+			p.caps10, p.caps11, p.preferred = true, true, "1.1"
+		}
+	} else {
+		switch h.Intn(3) {
+		case 0:
+			p.caps10, p.caps11, p.preferred = true, false, ""
+		case 1:
+			p.caps10, p.caps11, p.preferred = true, false, "1.0"
+		default:
+			p.caps10, p.caps11, p.preferred = true, true, "1.0"
+		}
+	}
+	if p.echo == sim.C08EchoMerged && h.Bool() {
+		p.echo = sim.C08EchoCoalesced
+	}
+}
+
+func (p c08plan) cell() string {
+	if !p.matrix {
+		return "plain"
+	}
+	c := ""
+	if p.caps10 {
+		c += "1.0"
+	}
+	if p.caps11 {
+		c += "+1.1"
+	}
+	pr := p.preferred
+	if pr == "" {
+		pr = "unset"
+	}
+	return "server=" + c + ",preferred=" + pr
+}
+
 func c08HistoryPlan(name string, v11 bool, echo int, spec []int) c08plan {
 	// spec: per call 4 numbers: mode, timeoutMs (0 = driver TimeoutOps), idleFactor
 	p := c08plan{name: name, v11: v11, echo: echo, seg: []int{1 << 20}, opsMs: 150}
@@ -309,7 +364,34 @@ func c08Directed(name string) (c08plan, bool) {
 		}
 		return p
 	}
+	three := func(p c08plan) c08plan {
+		p.seg = append(p.seg, 1<<20)
+		for i := 0; i < 3; i++ {
+			p.calls = append(p.calls, c08call{mode: 0, timeoutMs: 60, filter: "<a/>",
+				payload: []byte(`<rpc-reply message-id="` + c08IDToken + `"><ok/></rpc-reply>`)})
+		}
+		return p
+	}
 	switch name {
+	case "matrix-both-preferred-10":
+		return three(c08plan{name: name, v11: false, matrix: true, caps10: true, caps11: true, preferred: "1.0"}), true
+	case "matrix-both-preferred-11":
+		return three(c08plan{name: name, v11: true, matrix: true, caps10: true, caps11: true, preferred: "1.1", echo: sim.C08EchoSep}), true
+	case "matrix-both-unset":
+		return three(c08plan{name: name, v11: true, matrix: true, caps10: true, caps11: true}), true
+	case "matrix-11-only":
+		return three(c08plan{name: name, v11: true, matrix: true, caps11: true}), true
+	case "matrix-10-only-preferred-10":
+		return three(c08plan{name: name, v11: false, matrix: true, caps10: true, preferred: "1.0"}), true
+	case "echo-coalesced-10":
+		return three(c08plan{name: name, v11: false, echo: sim.C08EchoCoalesced}), true
+	case "echo-coalesced-11":
+		return three(c08plan{name: name, v11: true, echo: sim.C08EchoCoalesced}), true
+	case "echo-coalesced-part-of-reply":
+		// 1.1: the first read ends inside the reply, the rest follows, then silence
+		return three(c08plan{name: name, v11: true, echo: sim.C08EchoCoalesced, seg: []int{150}}), true
+	case "echo-coalesced-split-echo":
+		return three(c08plan{name: name, v11: false, echo: sim.C08EchoCoalesced, seg: []int{40, 90}}), true
 	case "hist-idle-after-success-10":
 		return c08HistoryPlan(name, false, 0, []int{0, 100, 0, 0, 100, 1, 0, 100, 2, 0, 100, 0}), true
 	case "hist-idle-after-success-11":
@@ -346,7 +428,9 @@ func c08Directed(name string) (c08plan, bool) {
 	return c08plan{}, false
 }
 
-var c08DirectedNames = []string{"hist-idle-after-success-10", "hist-idle-after-success-11", "hist-idle-default-timeout",
+var c08DirectedNames = []string{"matrix-both-preferred-10", "matrix-both-preferred-11", "matrix-both-unset", "matrix-11-only",
+	"matrix-10-only-preferred-10", "echo-coalesced-10", "echo-coalesced-11", "echo-coalesced-part-of-reply", "echo-coalesced-split-echo",
+	"hist-idle-after-success-10", "hist-idle-after-success-11", "hist-idle-default-timeout",
 	"hist-idle-after-timeout", "hist-short-then-long", "hist-long-then-short", "hist-many-in-a-row", "f13-split-id", "f13-split-id-echo", "chunked-id-intact", "f2-hashhash-cut", "f2-hashhash-whole", "f2-hashhash-prefix-cut"}
 
 // ---------------------------------------------------------------------------------------------
@@ -372,16 +456,17 @@ type c08unit struct {
 }
 
 type c08run struct {
-	plan     c08plan
-	openErr  error
-	version  string
-	outcomes []c08outcome
-	reqIDs   []int
-	reqOK    []bool
-	units    []c08unit
-	aligned  bool
-	nreads   int
-	note     string
+	plan       c08plan
+	openErr    error
+	version    string
+	srvVersion string
+	outcomes   []c08outcome
+	reqIDs     []int
+	reqOK      []bool
+	units      []c08unit
+	aligned    bool
+	nreads     int
+	note       string
 }
 
 func c08ErrClass(err error) string {
@@ -411,7 +496,11 @@ func c08AllLF(b []byte) bool {
 
 func c08Execute(p c08plan, tscale int) (run c08run) {
 	run.plan = p
-	srv := sim.NewC08Server(p.v11)
+	caps10, caps11 := true, p.v11
+	if p.matrix {
+		caps10, caps11 = p.caps10, p.caps11
+	}
+	srv := sim.NewC08ServerCaps(caps10, caps11)
 	srv.TrailingLF = p.trailingLF
 	for _, c := range p.calls {
 		srv.Plans = append(srv.Plans, sim.C08Plan{Mode: c.mode, Payload: c.payload, Chunks: c.chunks, Before: c.before, After: c.after})
@@ -424,8 +513,12 @@ func c08Execute(p c08plan, tscale int) (run c08run) {
 	}
 	srv.IDToken = []byte(c08IDToken)
 	srv.Start()
-	d, err := netconf.NewDriver("h", options.WithCustomTransport(srv), options.WithAuthBypass(),
-		options.WithTimeoutOps(2*time.Second), options.WithReadDelay(50*time.Microsecond))
+	dopts := []util.Option{options.WithCustomTransport(srv), options.WithAuthBypass(),
+		options.WithTimeoutOps(2 * time.Second), options.WithReadDelay(50 * time.Microsecond)}
+	if p.matrix && p.preferred != "" {
+		dopts = append(dopts, options.WithNetconfPreferredVersion(p.preferred))
+	}
+	d, err := netconf.NewDriver("h", dopts...)
 
 	if err != nil {
 		run.openErr = err
@@ -436,6 +529,7 @@ func c08Execute(p c08plan, tscale int) (run c08run) {
 		return run
 	}
 	run.version = d.SelectedVersion
+	srv.Snapshot(func() { run.srvVersion = srv.Version })
 	// let the hello exchange drain, then switch on echo / segmentation / logging
 	for i := 0; i < 2000 && !srv.Quiet(); i++ {
 		time.Sleep(100 * time.Microsecond)
@@ -778,6 +872,7 @@ func runC08(c *ctx) {
 			mc, _ := strconv.Atoi(f[3])
 			pp := c08GenPlan(vlib.NewRng(seed), mc)
 			c08AddHistory(&pp, vlib.NewRng(seed^0x5bd1e9955bd1e995))
+			c08AddMatrix(&pp, vlib.NewRng(seed^0x27d4eb2f165667c5))
 			pp.name = fmt.Sprintf("seed-%d", seed)
 			jobs = append(jobs, job{c.replay, pp})
 		}
@@ -795,6 +890,7 @@ func runC08(c *ctx) {
 			}
 			p := c08GenPlan(vlib.NewRng(seed), mc)
 			c08AddHistory(&p, vlib.NewRng(seed^0x5bd1e9955bd1e995))
+			c08AddMatrix(&p, vlib.NewRng(seed^0x27d4eb2f165667c5))
 			p.name = fmt.Sprintf("seed-%d", seed)
 			jobs = append(jobs, job{fmt.Sprintf("c08 plan %d %d", seed, mc), p})
 		}
@@ -837,6 +933,14 @@ func runC08(c *ctx) {
 		p := run.plan
 		if run.openErr != nil {
 			res.Fail("oracle", jb.line, "session did not open: "+run.openErr.Error(), "open-failed")
+			return false
+		}
+		wantVer := "1.0"
+		if run.plan.v11 {
+			wantVer = "1.1"
+		}
+		if run.version != wantVer || run.srvVersion != wantVer {
+			res.Fail("oracle", jb.line, fmt.Sprintf("%s: the session must run %s (highest common version, or the client's preference), client selected %q, server speaks %q", run.plan.cell(), wantVer, run.version, run.srvVersion), "version-selection")
 			return false
 		}
 		if !run.aligned {
@@ -995,7 +1099,7 @@ func runC08(c *ctx) {
 				impl = vlib.Hex(o.raw)
 			}
 			desc := fmt.Sprintf("call %d (id %d, v%s, echo=%d, mode=%d)", k, idBase+k, ver, p.echo, cl.mode)
-			sess := fmt.Sprintf("; session %s timeout=%dms idle-before=%dx chunks=%v seg=%v payload=%q", p.name, p.timeoutOf(k), cl.idleFactor, cl.chunks, p.seg, cl.payload)
+			sess := fmt.Sprintf("; session %s [%s] timeout=%dms idle-before=%dx chunks=%v seg=%v payload=%q", p.name, p.cell(), p.timeoutOf(k), cl.idleFactor, cl.chunks, p.seg, cl.payload)
 			// unconditional: whatever comes back carries the caller's id first
 			if o.class == "nil" {
 				m := c08ReMsgID.FindSubmatch(o.raw)
@@ -1133,6 +1237,7 @@ func runC08(c *ctx) {
 		}
 		res.Count(fmt.Sprintf("version:%s", ver))
 		res.Count(fmt.Sprintf("echo:%d", p.echo))
+		res.Count("matrix:" + p.cell())
 		res.Count(fmt.Sprintf("calls:%02d-%02d", len(p.calls)/5*5, len(p.calls)/5*5+4))
 		if L.dom {
 			res.Count("theorem-hypotheses:hold")
